@@ -29,6 +29,10 @@ Alpha == << [s |-> "P",   t |-> "li t0, 1"],
             [s |-> "R",   t |-> "ret"],
             [s |-> "X",   t |-> "li a7, 10\n    ecall"],
             [s |-> "E",   t |-> "ecall"],
+            [s |-> "A10", t |-> "li a7, 10"],
+            [s |-> "A93", t |-> "li a7, 93"],
+            [s |-> "RJ",  t |-> "jalr zero, ra, 0"],
+            [s |-> "RR",  t |-> "jr ra"],
             [s |-> "H2",  t |-> "la t2, L2\n    csrrw zero, 5, t2"],
             [s |-> "U",   t |-> "uret"],
             [s |-> "A",   t |-> "la t1, D1"],
